@@ -472,6 +472,19 @@ func (c *Ctx) titleDomain(pk *pkgT, fd *ast.FuncDecl) (string, string) {
 					}
 					return true
 				})
+				// ... or what a helper hands out: a function whose every first result is "" or an
+				// element of strings.Split(<its parameter>, SEP)
+				if !okRange {
+					if rhs, idx, isTuple := c.CFG(pk, fd.Body).TupleDefOf(info.ObjectOf(id)); isTuple && idx == 0 {
+						if hc, isCall := ast.Unparen(rhs).(*ast.CallExpr); isCall && c.returnsSplitSegment(Callee(info, hc), s) {
+							okRange = true
+						}
+					} else if def := c.CFG(pk, fd.Body).DefOf(info.ObjectOf(id)); def != nil {
+						if hc, isCall := ast.Unparen(def).(*ast.CallExpr); isCall && c.returnsSplitSegment(Callee(info, hc), s) {
+							okRange = true
+						}
+					}
+				}
 				if okRange {
 					if sep != "" && s != sep {
 						why = "two different literal prefixes"
@@ -630,4 +643,90 @@ func (s *tnState) image(seg string) string {
 		sb.WriteString(s.h[seg[i]])
 	}
 	return sb.String()
+}
+
+
+// returnsSplitSegment: every first result of g is the empty string or an element of
+// strings.Split(<a parameter of g>, sep) - the value variable of a range over it, or an
+// index into it.
+func (c *Ctx) returnsSplitSegment(g *types.Func, sep string) bool {
+	gd := c.P.Decl(g)
+	if gd == nil || gd.Type.Params == nil {
+		return false
+	}
+	gpk := c.P.PkgOfDecl(gd)
+	info := gpk.TypesInfo
+	cf := c.CFG(gpk, gd.Body)
+	params := map[types.Object]bool{}
+	for _, fl := range gd.Type.Params.List {
+		for _, nm := range fl.Names {
+			params[info.ObjectOf(nm)] = true
+		}
+	}
+	isSplit := func(e ast.Expr) bool {
+		call, ok := ast.Unparen(cf.Resolve(e)).(*ast.CallExpr)
+		if !ok || len(call.Args) != 2 {
+			return false
+		}
+		f := Callee(info, call)
+		if f == nil || f.Pkg() == nil || f.Pkg().Path() != "strings" || f.Name() != "Split" {
+			return false
+		}
+		tv, ok := info.Types[call.Args[1]]
+		if !ok || tv.Value == nil || tv.Value.Kind() != constant.String || constant.StringVal(tv.Value) != sep {
+			return false
+		}
+		id, ok := ast.Unparen(call.Args[0]).(*ast.Ident)
+		return ok && params[info.ObjectOf(id)]
+	}
+	good, n := true, 0
+	inspectNoLit(gd.Body, func(x ast.Node) bool {
+		ret, ok := x.(*ast.ReturnStmt)
+		if !ok || len(ret.Results) == 0 {
+			return true
+		}
+		n++
+		r := ast.Unparen(ret.Results[0])
+		if tv, ok := info.Types[r]; ok && tv.Value != nil && tv.Value.Kind() == constant.String && constant.StringVal(tv.Value) == "" {
+			return true
+		}
+		switch v := r.(type) {
+		case *ast.IndexExpr:
+			if isSplit(v.X) {
+				return true
+			}
+		case *ast.Ident:
+			obj := info.ObjectOf(v)
+			found := false
+			ast.Inspect(gd.Body, func(y ast.Node) bool {
+				if rs, ok := y.(*ast.RangeStmt); ok && rs.Value != nil {
+					if vid, ok := rs.Value.(*ast.Ident); ok && info.ObjectOf(vid) == obj && isSplit(rs.X) && !assignedInBody(info, rs.Body, obj) {
+						found = true
+					}
+				}
+				return true
+			})
+			if found {
+				return true
+			}
+		}
+		good = false
+		return true
+	})
+	return good && n > 0
+}
+
+func assignedInBody(info *types.Info, body *ast.BlockStmt, obj types.Object) bool {
+	hit := false
+	ast.Inspect(body, func(n ast.Node) bool {
+		if as, ok := n.(*ast.AssignStmt); ok {
+			for _, l := range as.Lhs {
+				if id, ok := l.(*ast.Ident); ok && info.ObjectOf(id) == obj {
+					hit = true
+				}
+			}
+		}
+		return !hit
+	})
+	return hit
 }
